@@ -20,7 +20,7 @@ from dask.hashing import hash_buffer_hex
 from dask.utils import cached_property, parse_bytes
 
 from dask_array._chunk import getitem as chunk_getitem
-from dask_array._expr import ArrayExpr
+from dask_array._expr import ArrayExpr, _flat_block_sizes
 from dask_array._core_utils import concatenate3, normalize_chunks
 from dask_array._utils import validate_axis
 from dask_array.io._from_map import _dumps5
@@ -716,7 +716,7 @@ class Rechunk(ArrayExpr):
                     chunks[i] = x.chunks[i]
                 elif chunks[i] is None:
                     chunks[i] = x.chunks[i]
-        if isinstance(chunks, (tuple, list)):
+        if isinstance(chunks, (tuple, list)) and not _flat_block_sizes(chunks, x.shape):
             chunks = tuple(lc if lc is not None else rc for lc, rc in zip(chunks, x.chunks))
         chunks = normalize_chunks(
             chunks,
